@@ -586,9 +586,11 @@ int main(int argc, char** argv) {
     for (auto& P : phases)
       makePhase(P, rng, g_np, maxT, maxCount, mode, H.thorough);
     uint64_t noiseSeed = rng.next();
+    unsigned spinProb  = (unsigned)rng.pick({0, 0, 4096, 65535}); // yields inside Galois' lock spin loops (asmPause hook)
     H.hangKey = key("hang");
     H.begin(k, J().kv("component", COMP).kv("mode", MODES[mode]).kv("hosts", g_np).kv("phases", nph).kv("maxT", maxT)
                    .kv("start_tag", gr::evilPhase).kv("wrap", wrap).str());
+    perturb_case(noiseSeed, 0, spinProb, 30);
     uint64_t c0sent = g_cnt.sent, c0recvd = g_cnt.recvd, c0bs = g_cnt.bytesSent, c0br = g_cnt.bytesRecvd, c0tiny = g_cnt.tiny,
              c0th = g_cnt.thresh, c0big = g_cnt.big, c0self = g_cnt.selfMsgs, c0hd = g_cnt.hdrDeser;
     auto extra0      = net.reportExtraNamed();
@@ -835,6 +837,10 @@ int main(int argc, char** argv) {
                            .kv("why", "left over after every planned message of the case had been received (duplicate or spurious)").str());
         }
     }
+
+    // nobody starts the next case (which may re-use tag values after a wrap-around) while a host is still looking for
+    // left-overs of this one; harness-level synchronisation, not a judged barrier
+    MPI_Barrier(MPI_COMM_WORLD);
 
     // ---- gather findings and counters on rank 0 (plain MPI, independent of the layer under test)
     std::string mine;
